@@ -22,8 +22,8 @@ func init() {
 		Technique: "wire-integer hygiene and guard/dominance rules on go/ssa (relational reading of branch conditions), error-discipline path queries, table agreement with RFC 7541 Appendix A/B",
 		Meta: core.Meta{
 			Level:       "other",
-			Explanation: "Decides structural necessary conditions of RFC 7541 decoding in bfe_http2/hpack: (1) readVarInt: every cycle through the accumulator shift passes a bound test that keeps the shift amount <= 56 and whose failing branch returns a fatal (non-errNeedMore) error; 7-bit payload mask, continuation bit 0x80, step 7; exhausted input yields errNeedMore; the prefix ends the integer only when strictly below 2^N-1. (2) Decoder.at answers ok only under 1 <= i <= len(static)+len(dynamic), the two index expressions are i-1 and len(ents)-(i-61) as affine forms and are guarded, and both callers use the entry only under ok and return a DecodingError otherwise. (3) the dynamic table size update reaches setMaxSize only under size <= allowedMaxSize; census of setMaxSize callers and of the writers of maxSize/allowedMaxSize; an integer read from the wire (readVarInt result, also when passed on as a parameter inside the package) is converted to a narrower integer type only under a guard that bounds the full-width value by something fitting that type, so limit/index/length tests are never made on truncated values. (4) the representation dispatch (bit patterns, prefix lengths, index type) agrees with RFC 7541 section 6. (5) every readVarInt/readString/huffmanDecode error is tested before any decoder state is changed, d.buf is advanced only after the last read and on every success path, no read follows a state change (incremental re-parse is idempotent). (6) readString slices only under strLen <= len(p), enforces maxStrLen, reports errNeedMore on truncation; Decoder.Write saves the unparsed rest on errNeedMore and Close reports truncated blocks. (7) huffmanDecode: every child-node dereference is guarded by a nil test (an encoded EOS is an error, not a panic), the in-loop output is bounded by maxLen, and after the byte loop an error return must depend on the residual bit count (padding > 7 bits) and on the residual bits (padding not all ones). (8) the static table and the Huffman code/length tables equal RFC 7541 Appendix A/B and the code is prefix-free and complete with EOS. (9) dynamic-table entry size is len(name)+len(value)+32 and add/setMaxSize evict. Not covered: equality with a reference decoder on all inputs (only the clauses above), the correctness of the Huffman tree construction, eviction arithmetic over histories, general panic-freedom (only constant-index/slice bounds in the wire readers and the nil dereferences in huffmanDecode are decided), the size-update-only-at-block-start rule of RFC 7541 section 4.2; value changes of wire integers other than truncating conversions (masking, same-width sign reinterpretation such as uint64->int on 64-bit targets).",
-			RuleText:    "obligations = each accumulator shift, each success/truncation return of readVarInt, each ok-return and table index expression of Decoder.at, each Decoder.at call site, each setMaxSize call and table-size field writer, each truncating conversion of a wire integer, each row of the representation dispatch, each read call of the parse functions (error tested before effects), each consumption store and success return, each wire-length slice in readString, each need-more return of Write, each child lookup and the two tail clauses of huffmanDecode, the three RFC tables",
+			Explanation: "Decides structural necessary conditions of RFC 7541 decoding in bfe_http2/hpack: (1) readVarInt: every cycle through the accumulator shift passes a bound test that keeps the shift amount <= 56 and whose failing branch returns a fatal (non-errNeedMore) error; 7-bit payload mask, continuation bit 0x80, step 7; exhausted input yields errNeedMore; the prefix ends the integer only when strictly below 2^N-1. (2) Decoder.at answers ok only under 1 <= i <= len(static)+len(dynamic), the two index expressions are i-1 and len(ents)-(i-61) as affine forms and are guarded, and both callers use the entry only under ok and return a DecodingError otherwise. (3) the dynamic table size update reaches setMaxSize only under size <= allowedMaxSize; census of setMaxSize callers and of the writers of maxSize/allowedMaxSize; an integer read from the wire (readVarInt result, also when passed on as a parameter inside the package) is converted to a narrower integer type only under a guard that bounds the full-width value by something fitting that type, so limit/index/length tests are never made on truncated values. (4) the representation dispatch (bit patterns, prefix lengths, index type) agrees with RFC 7541 section 6. (5) every readVarInt/readString/huffmanDecode error is tested before any decoder state is changed, d.buf is advanced only after the last read and on every success path, no read follows a state change (incremental re-parse is idempotent). (6) readString slices only under strLen <= len(p), enforces maxStrLen, reports errNeedMore on truncation; Decoder.Write saves the unparsed rest on errNeedMore and Close reports truncated blocks. (7) huffmanDecode: every child-node dereference is guarded by a nil test (an encoded EOS is an error, not a panic), the in-loop output is bounded by maxLen, after the byte loop some branch whose one edge leads to error returns only must test the residual bit count (> 7 bits) and some such branch the residual bits (padding not all ones), and both tests are total: once an input byte has been read no return that may report success is reachable without passing them (a return the guards place under no-bits-left needs no value test), so an early success exit or a test folded into a loop that may not run is reported. (8) the static table and the Huffman code/length tables equal RFC 7541 Appendix A/B and the code is prefix-free and complete with EOS. (9) dynamic-table entry size is len(name)+len(value)+32 and add/setMaxSize evict; the insertion is unconditional: a success return of parseFieldLiteral is reachable without dynamicTable.add only over the false edge of an it.indexed() test (no size or other side condition, RFC 7541 section 4.4: an oversize entry empties the table), dynamicTable.add appends its parameter, accounts the size and evicts on every path from its entry, and every return of evict is placed by the guards under size <= maxSize. Not covered: equality with a reference decoder on all inputs (only the clauses above), the correctness of the Huffman tree construction, which of the two bit counters of huffmanDecode the length test reads (a test of the buffered-bit counter instead of the symbol-prefix counter is not told apart), that the value inserted by parseFieldLiteral is the field emitted, eviction arithmetic over histories, general panic-freedom (only constant-index/slice bounds in the wire readers and the nil dereferences in huffmanDecode are decided), the size-update-only-at-block-start rule of RFC 7541 section 4.2; value changes of wire integers other than truncating conversions (masking, same-width sign reinterpretation such as uint64->int on 64-bit targets).",
+			RuleText:    "obligations = each accumulator shift, each success/truncation return of readVarInt, each ok-return and table index expression of Decoder.at, each Decoder.at call site, each setMaxSize call and table-size field writer, each truncating conversion of a wire integer, each row of the representation dispatch, each read call of the parse functions (error tested before effects), each consumption store and success return, each wire-length slice in readString, each need-more return of Write, each child lookup, the two tail clauses and each success return (passes both tail tests) of huffmanDecode, the three RFC tables, the indexed-implies-add path query of parseFieldLiteral, the three insertion steps of dynamicTable.add, each return of evict",
 			Assumptions: []string{"package-level error variables (errNeedMore, ErrInvalidHuffman, ErrStringLength, errVarintOverflow) are initialised non-nil and never reassigned", "bytes.Buffer and append behave as documented"},
 		},
 		Run: runC31,
@@ -47,6 +47,15 @@ func init() {
 			{Name: "size-update-compared-after-truncation", File: "bfe_http2/hpack/hpack.go", Old: "	if size > uint64(d.dynTab.allowedMaxSize) {\n		return DecodingError{errors.New(\"dynamic table size update too large\")}\n	}\n	d.dynTab.setMaxSize(uint32(size))", New: "	newSize := uint32(size)\n	if newSize > d.dynTab.allowedMaxSize {\n		return DecodingError{errors.New(\"dynamic table size update too large\")}\n	}\n	d.dynTab.setMaxSize(newSize)", Expect: "wire-narrowing|bfe_http2/hpack.Decoder.parseDynamicTableSizeUpdate"},
 			{Name: "silent-narrow-after-check-skip-unchanged", File: "bfe_http2/hpack/hpack.go", Old: "	d.dynTab.setMaxSize(uint32(size))\n", New: "	if newSize := uint32(size); newSize != d.dynTab.maxSize {\n		d.dynTab.setMaxSize(newSize)\n	}\n", Silent: true},
 			{Name: "silent-rename-and-log", File: "bfe_http2/hpack/hpack.go", Old: "	size, buf, err := readVarInt(5, buf)\n	if err != nil {\n		return err\n	}\n	if size > uint64(d.dynTab.allowedMaxSize) {\n		return DecodingError{errors.New(\"dynamic table size update too large\")}\n	}\n	d.dynTab.setMaxSize(uint32(size))", New: "	newSize, buf, err := readVarInt(5, buf)\n	if err != nil {\n		return err\n	}\n	limit := uint64(d.dynTab.allowedMaxSize)\n	if limit < newSize {\n		return DecodingError{errors.New(\"dynamic table size update too large\")}\n	}\n	d.dynTab.setMaxSize(uint32(newSize))", Silent: true},
+			{Name: "huffman-tail-early-success-no-bits-left", File: "bfe_http2/hpack/huffman.go", Old: "	if sbits > 7 {\n		// Either there was", New: "	if nbits == 0 {\n		return nil\n	}\n	if sbits > 7 {\n		// Either there was", Expect: "huffman-tail|huffmanDecode:success-return"},
+			{Name: "huffman-tail-break-becomes-success", File: "bfe_http2/hpack/huffman.go", Old: "n.codeLen > nbits {\n			break", New: "n.codeLen > nbits {\n			return nil", Expect: "huffman-tail|huffmanDecode:success-return"},
+			{Name: "huffman-tail-value-test-skipped-for-short-rest", File: "bfe_http2/hpack/huffman.go", Old: "	if mask := uint(1<<nbits - 1); cur&mask != mask {", New: "	if nbits < 4 {\n		return nil\n	}\n	if mask := uint(1<<nbits - 1); cur&mask != mask {", Expect: "passes-padding-value-test"},
+			{Name: "silent-huffman-tail-one-disjunction", File: "bfe_http2/hpack/huffman.go", Old: "	if sbits > 7 {\n		// Either there was an incomplete symbol, or overlong padding.\n		// Both are decoding errors per RFC 7541 section 5.2.\n		return ErrInvalidHuffman\n	}\n	if mask := uint(1<<nbits - 1); cur&mask != mask {", New: "	if mask := uint(1<<nbits - 1); sbits > 7 || cur&mask != mask {", Silent: true},
+			{Name: "silent-huffman-tail-no-bits-shortcut-after-length-test", File: "bfe_http2/hpack/huffman.go", Old: "	if mask := uint(1<<nbits - 1); cur&mask != mask {", New: "	if nbits == 0 {\n		return nil\n	}\n	if mask := uint(1<<nbits - 1); cur&mask != mask {", Silent: true},
+			{Name: "literal-add-only-if-it-fits", File: "bfe_http2/hpack/hpack.go", Old: "	if it.indexed() {\n		d.dynTab.add(hf)", New: "	if uint32(len(hf.Value)) <= d.dynTab.maxSize && it.indexed() {\n		d.dynTab.add(hf)", Expect: "literal-indexing|parseFieldLiteral:indexed-implies-add"},
+			{Name: "table-add-skips-oversize-entry", File: "bfe_http2/hpack/hpack.go", Old: "func (dt *dynamicTable) add(f HeaderField) {\n", New: "func (dt *dynamicTable) add(f HeaderField) {\n	if f.Size() > dt.maxSize {\n		return\n	}\n", Expect: "dyn-table|dynamicTable.add:unconditional"},
+			{Name: "evict-keeps-last-entry", File: "bfe_http2/hpack/hpack.go", Old: "	for dt.size > dt.maxSize {", New: "	for dt.size > dt.maxSize && len(dt.ents) > 1 {", Expect: "dyn-table|dynamicTable.evict:return-fits"},
+			{Name: "silent-literal-add-early-exit-form", File: "bfe_http2/hpack/hpack.go", Old: "	if it.indexed() {\n		d.dynTab.add(hf)\n	}", New: "	if !it.indexed() {\n		hf.Sensitive = it.sensitive()\n		return d.callEmit(hf)\n	}\n	d.dynTab.add(hf)", Silent: true},
 			{Name: "silent-at-rewritten", File: "bfe_http2/hpack/hpack.go", Old: "	if i < 1 {\n		return\n	}\n	if i > uint64(d.maxTableIndex()) {\n		return\n	}", New: "	if i == 0 || uint64(d.maxTableIndex()) < i {\n		return\n	}", Silent: true},
 		},
 	})
@@ -779,6 +788,7 @@ func c31Dispatch(c *core.Ctx) {
 		if n == 0 {
 			c.Check("literal-indexing", "parseFieldLiteral:add#0", lit.Pos(), false, "parseFieldLiteral never inserts into the dynamic table: incremental indexing is lost")
 		}
+		c31IndexedImpliesAdd(c, lit)
 		if sf := hxField(c, hxHpack, "HeaderField.Sensitive"); sf != nil {
 			for i, st := range core.FieldStores([]*ssa.Function{lit}, sf) {
 				cc, _ := hxCallOf(st.Store.Val)
@@ -786,7 +796,7 @@ func c31Dispatch(c *core.Ctx) {
 			}
 		}
 	}
-	c.Min("literal-indexing", 4)
+	c.Min("literal-indexing", 5)
 }
 
 // ---------------------------------------------------------------- reads / consumption
@@ -1117,10 +1127,6 @@ func c31Huffman(c *core.Ctx) {
 		return
 	}
 	loopB := byteLoad.Block()
-	fromLoop := hxReach(loopB)
-	inTail := func(b *ssa.BasicBlock) bool {
-		return fromLoop[b] && !hxReach(b)[loopB] && !loopB.Dominates(b)
-	}
 	inLoop := func(b *ssa.BasicBlock) bool { return hxReach(b)[loopB] && (loopB.Dominates(b) || b == loopB) }
 	isBitBuf := func(v ssa.Value) bool {
 		return hxSliceHas(v, func(x ssa.Value) bool { return x == ssa.Value(byteLoad) })
@@ -1206,51 +1212,8 @@ func c31Huffman(c *core.Ctx) {
 			"the decoding tree has no leaf for EOS, so a child looked up with input bits can be nil (an encoded EOS or a prefix of it): "+strings.Join(hxUniq(why), "; ")+"; input such as fe 3f ff ff ff panics with a nil dereference instead of returning ErrInvalidHuffman")
 	}
 	c.Min("huffman-nil", 2)
-	// (b) tail clauses
-	lenOK, onesOK := false, false
-	var tailPos token.Pos = fn.Pos()
-	for _, r := range core.Returns(fn) {
-		if !inTail(r.Block()) {
-			continue
-		}
-		tailPos = r.Pos()
-		if !hxErrOf(hxErrResult(r)).NonNil {
-			continue
-		}
-		rels := hxRelsAt(r.Block())
-		if len(r.Block().Preds) > 1 {
-			// `if a || b { return err }`: use the relations common to all edges
-			rels = nil
-			for i, p := range r.Block().Preds {
-				er := hxRelsOnEdge(p, r.Block())
-				if i == 0 {
-					rels = er
-					continue
-				}
-				var keep []hxRel
-				for _, a := range rels {
-					for _, b := range er {
-						if a.String() == b.String() {
-							keep = append(keep, a)
-						}
-					}
-				}
-				rels = keep
-			}
-		}
-		if lo, has := hxLower(rels, isCounter); has && lo == 8 {
-			lenOK = true
-		}
-		for _, rel := range rels {
-			if (rel.Op == token.NEQ || rel.Op == token.EQL) && (isBitBuf(rel.L) || isBitBuf(rel.R)) && !hxIsNil(rel.R) {
-				onesOK = true
-			}
-		}
-	}
-	c.Check("huffman-tail", "huffmanDecode:padding-longer-than-7-bits", tailPos, lenOK,
-		"after the last input byte no error return depends on the number of undecoded bits being > 7: padding longer than 7 bits (or a truncated symbol) is accepted instead of being a decoding error (RFC 7541 section 5.2)")
-	c.Check("huffman-tail", "huffmanDecode:padding-not-eos-prefix", tailPos, onesOK,
-		"after the last input byte no error return depends on the value of the undecoded bits: padding that is not the most-significant bits of EOS (all ones) is accepted instead of being a decoding error (RFC 7541 section 5.2)")
+	// (b) tail clauses: existence and totality (x_hpack3.go)
+	c31HuffmanTail(c, fn, byteLoad, isCounter, isBitBuf)
 	// (c) output bound inside the loop
 	n := 0
 	for _, in := range hxInstrs(fn) {
@@ -1474,6 +1437,7 @@ func c31DynTab(c *core.Ctx) {
 			}
 		}
 		c.Check("dyn-table", "dynamicTable.add:size-and-evict", fn.Pos(), ok, "add must account size += f.Size() and evict afterwards on every path")
+		c31AddUnconditional(c, fn)
 	}
 	if fn := hxFn(c, hxHpack, "dynamicTable.setMaxSize"); fn != nil && maxF != nil {
 		sts := core.FieldStores([]*ssa.Function{fn}, maxF)
@@ -1523,8 +1487,9 @@ func c31DynTab(c *core.Ctx) {
 			}
 		}
 		c.Check("dyn-table", "dynamicTable.evict:until-fits", fn.Pos(), ok && exitOK, "evict must remove the oldest entries (size -= entry size) while size > maxSize and stop only when size <= maxSize")
+		c31EvictFits(c, fn)
 	}
-	c.Min("dyn-table", 4)
+	c.Min("dyn-table", 6)
 }
 
 // hxStaticTable is RFC 7541 Appendix A (cross-checked against golang.org/x/net v0.34.0 http2/hpack).
